@@ -19,7 +19,7 @@ META = dict(
           'non-trivial = distinct (logic, kind, ordered constraint list with worlds) with >= 2 literals.'),
     assumptions=['REF-SEM negation tables and designated sets', 'classical family: a=a and !a are true at every world'],
     min_events={'any': {'closed_expected_and_observed': 500, 'open_model_reads': 500, 'logics': 52}},
-    budget=dict(quick=1500, thorough=1500),
+    budget=dict(quick=1500, thorough=7200),
 )
 
 A = syn.atom(0)
